@@ -12,7 +12,7 @@ def model_text(ident, role):
     s = ident if role == "state" else "x"
     p = ident if role == "param" else "a"
     w = ident if role == "inter" else "w"
-    return (f"states({s} = 1.5, y = 0.5)\nparameters({p} = 2)\n{w} = ({p} * {s} + y) * ({p} * {s} + y)\nd{s}_dt = {w} - {s}\ndy_dt = {s} * {p}\n"), s, p, w
+    return (f"states({s} = 1.5, y = 0.5)\nparameters({p} = 2)\n{w} = ({p} * {s} + y) * ({p} * {s} + y)\nu = {w} + 1\nv = (u + y) / (1 + (u + y) * (u + y))\nd{s}_dt = {w} - {s} + v\ndy_dt = {s} * {p}\n"), s, p, w
 
 
 def check_ident(rec, backend, workdir=None):
@@ -53,7 +53,7 @@ def check_ident(rec, backend, workdir=None):
         t, dt = qf(inp["t"]), qf(inp["dt"])
         stats = {"compared": 0, "undefined": 0}
         for fn, dtv, names, kind, exp, key in (("rhs", None, sn, "state", rec["den"], lambda n: ren(f"d{n}_dt")),
-                                               ("monitor_values", None, [w, f"d{s}_dt", "dy_dt"], "monitor", rec["den"], ren),
+                                               ("monitor_values", None, [w, "u", "v", f"d{s}_dt", "dy_dt"], "monitor", rec["den"], ren),
                                                ("explicit_euler", dt, sn, "state", rec["euler"], ren),
                                                ("generalized_rush_larsen", dt, sn, "state", rec["grl"], ren)):
             try:
@@ -72,7 +72,7 @@ def check_ident(rec, backend, workdir=None):
         # the generator classes called directly with the documented option use_cse=True (numpy, jax): the functions
         # replace the ones of the module and must return the same numbers
         if backend in ("numpy", "jax"):
-            direct_use_cse(ode, mod, backend, t, S, P, sn, [w, f"d{s}_dt", "dy_dt"], rec, ren, out, stats)
+            direct_use_cse(ode, mod, backend, t, S, P, sn, [w, "u", "v", f"d{s}_dt", "dy_dt"], rec, ren, out, stats)
         # initial values in their slots
         iv = list(mod.init_states())
         if abs(float(iv[mod.index("state", s)]) - 1.5) > 1e-12 or abs(float(iv[mod.index("state", "y")]) - 0.5) > 1e-12:
@@ -130,7 +130,7 @@ def check_ident_missing(rec, backend):
     from . import gx
     ident = rec["id"]
     text = (f'parameters("A", {ident} = 2)\nstates("A", z = 1)\nexpressions("A")\ndz_dt = -z\n'
-            f'states("B", x = 1.5, y = 0.5)\nexpressions("B")\nw = ({ident} * x + y) * ({ident} * x + y)\ndx_dt = w - x\ndy_dt = x * {ident}\n')
+            f'states("B", x = 1.5, y = 0.5)\nexpressions("B")\nw = ({ident} * x + y) * ({ident} * x + y)\nu = w + 1\nv = (u + y) / (1 + (u + y) * (u + y))\ndx_dt = w - x + v\ndy_dt = x * {ident}\n')
     out = {"id": ident, "role": "missing", "backend": backend, "text": text, "outcome": None, "problems": []}
     try:
         ode = gx.load(text)
